@@ -278,9 +278,10 @@ Proof.
     rewrite <- app_assoc. f_equal.
     (* the j-th queue = its head :: its tail *)
     assert (Hj1 : (j < length queues1)%nat) by lia.
+    unfold col. cbn [map app].
     rewrite (nth_indep _ d x) by (rewrite map_length; lia).
     rewrite (map_nth (fun q => match q with [] => x | v :: _ => v end) queues1 [] j).
-    change (@nil A) with (@tl A []) at 2. rewrite (map_nth (@tl A) queues1 [] j).
+    pose proof (map_nth (@tl A) queues1 [] j) as Htl. cbn [tl] in Htl. rewrite Htl.
     destruct (nth j queues1 []) as [|v t]; [congruence|reflexivity].
   - split; [|reflexivity]. split; [exact Hlen1|].
     intros j Hj. rewrite app_nil_r. apply H1. exact Hj.
